@@ -28,7 +28,8 @@ var (
 )
 
 func TestVerif(t *testing.T) {
-	pre := func(seed uint64) { cryptotest.SetGlobalRandom(t, seed) }
+	SetCryptoReseed(func(seed uint64) { cryptotest.SetGlobalRandom(t, seed) })
+	pre := seedCrypto
 	if *fReplay != "" {
 		ok, msg, rr := Replay(*fReplay, pre)
 		if rr != nil {
@@ -103,6 +104,7 @@ func TestDeterminism(t *testing.T) {
 	if *fProp == "" {
 		t.Skip("no -verif.prop")
 	}
+	SetCryptoReseed(func(seed uint64) { cryptotest.SetGlobalRandom(t, seed) })
 	p := Props[*fProp]
 	n := *fMaxRuns
 	if n <= 0 {
@@ -110,7 +112,7 @@ func TestDeterminism(t *testing.T) {
 	}
 	for r := 0; r < n; r++ {
 		seed := RunSeed(*fSeed, *fProp, uint64(r))
-		cryptotest.SetGlobalRandom(t, seed)
+		seedCrypto(seed)
 		rr := p.Run(NewTape(seed), false)
 		v := "-"
 		if rr.Viol != nil {
